@@ -15,7 +15,7 @@ MANIFEST = {
             "enumerated fault/reuse/timeout histories + seeded programs; journals, outcomes and identifier functions are compared with "
             "the model inside Coq (vm_compute); the property's own statement is evaluated on every real run (direct oracle).",
     "note": "Trusted: Coq kernel + vm_compute, no axioms; harness/xarun stand-in server and coordinator stub; "
-            "two-phase timeout checker switched off in the harness; explicit transactions and connection reuse are listed findings.",
+            "free-running checker ticker switched off in the harness (single passes through a hook); explicit transactions and pinned-connection reuse are listed findings.",
     "technique": "Coq proof (induction over op lists, invariants) + differential correspondence of journals (vm_compute) + direct oracle",
 }
 PROP_FILE = "Props/P_C17.v"
@@ -254,7 +254,7 @@ def run(chk, only=None):
                                              for r in nontriv]),
         "rule": "72 enumerated single-branch scenarios (every single fault position START/STMT/END/PREPARE/COMMIT/ROLLBACK, both refusal "
                 "kinds, commit/rollback, holder/stranger, server 5.7.30 and 8.0.30) + 54 enumerated pool-retirement / ErrBadConn / db.ExecContext-retry "
-                "histories + 150 enumerated reuse/timeout histories + 4 long-xid (IPv6) multi-branch histories (failed first "
+                "histories + 150 enumerated reuse/timeout histories + 4 long-xid (IPv6) multi-branch histories + 56 two-phase-timeout-checker histories (failed first "
                 "branch of every kind x second branch on the same pooled connection x phase-two order; timeouts) + %d seeded programs "
                 "(1-4 branches on fresh or pool-reused connections or through db.ExecContext with its retry, pool retirements, slow statements, fault error "
                 "kinds generic/ErrBadConn/context, interleaved phase two incl. rollback for failed-START "
@@ -276,7 +276,7 @@ def run(chk, only=None):
         "XA END(success) and the XA END(fail) that follows are not both made to fail (hypothesis of C17_legal and C17_failure; "
         "C17_accepted_legal has no such hypothesis)",
         "XA ROLLBACK of a never-started / already rolled-back branch answered XAER_NOTA is read as a no-op",
-        "two-phase timeout checker and the branch-status cache are not exercised; the branch timeout is driven through the verif hook (1 ns timeout, 2 ms statement)",
+        "the branch-status cache is not exercised; branch timeout and two-phase timeout checker are driven through verif hooks (1 ns / 1 h; single checker passes between ops, never concurrent with a statement)",
     ]
     return chk.finish()
 
